@@ -4,7 +4,7 @@
    the evaluation (closing impossible cases with lia at once), then compare the leaves with f_equal / lia.
    It never mentions the shape of a generated term. *)
 From Lasso Require Import Base Arena ArenaProofs.
-From LassoGen Require Import GenPrelude GenIR.
+From LassoGen Require Import GenPrelude GenIR GenRequest.
 Open Scope N_scope.
 
 (* ---------------- the generic tactic ---------------- *)
@@ -13,7 +13,8 @@ Ltac unfold_all :=
   unfold run_fun, run_bfun, run_wc, run_new, as_str_result, as_unit_result, as_unit, as_num,
          as_bnum, as_bbool, as_bunit, as_bref in *;
   repeat autounfold with arenagen in *;
-  unfold vec_store, vec_store_legacy, vec_store_gen, grow, vec_place, arena_new, arena_clear, block_clear in *.
+  unfold vec_store, vec_store_legacy, vec_store_gen, grow, vec_place, arena_new, arena_clear, block_clear,
+         vec_alloc_request, lf_alloc_request, grow_request, after_failed_alloc in *.
 
 Ltac unfold_props :=
   unfold ArenaInv, arena_typed, push_pre, alloc_pre, wc_pre, free_pre, block_ok, alloc_size,
@@ -46,11 +47,28 @@ Ltac sym_step :=
   end.
 
 Ltac sym_exec :=
-  repeat (cbn; unfold alloc_spec, push_slice, free_spec, is_full_spec; sym_step);
-  cbn; unfold alloc_spec, push_slice, free_spec, is_full_spec, with_blocks, fresh_block; cbn.
+  repeat (cbn; unfold alloc_spec, wc_spec, push_slice, free_spec, is_full_spec; sym_step);
+  cbn; unfold alloc_spec, wc_spec, push_slice, free_spec, is_full_spec, with_blocks, fresh_block; cbn.
+
+(* hypotheses that speak about the same case analysis as the goal (an allocation request of the model) are moved
+   into the goal before the symbolic execution, and instantiated at the leaves *)
+Ltac revert_requests :=
+  repeat match goal with
+  | H : _ = Some _ |- _ => revert H
+  | H : forall c d, _ = Some (c, d) -> _ |- _ => revert H
+  end.
+
+Ltac leaf_intros :=
+  intros;
+  repeat match goal with
+  | H : forall c d, Some _ = Some (c, d) -> _ |- _ => specialize (H _ _ eq_refl)
+  | H : forall c d, None = Some (c, d) -> _ |- _ => clear H
+  | H : Some (_, _) = Some (?c, ?d) |- _ => is_var c; is_var d; injection H; intros; subst d; subst c; clear H
+  | H : None = Some _ |- _ => discriminate H
+  end.
 
 Ltac finish :=
-  unfold_props; split_hyps; use_last; split_hyps;
+  leaf_intros; unfold_props; split_hyps; use_last; split_hyps;
   cbn [bid bcap bused bdata blocks bucket_cap usage limit next_bid];
   rewrite ?repeat_length, ?N2Nat.id;
   first [ eq_close | solve [prop_close] | idtac ].
@@ -65,6 +83,6 @@ Ltac case_string s :=
     set (s := c :: s0) in * ].
 
 Ltac gen_arena_tac :=
-  intros; unfold_all;
+  intros; unfold_all; revert_requests;
   try match goal with s : str |- _ => case_string s end;
   sym_exec; finish.
